@@ -47,6 +47,7 @@ fn judge_search(input: &[u8], loc: &mut Local) {
 
 /// junk ++ message ++ suffix must parse like message ++ suffix
 fn judge_junk(junk: &[u8], msg: &[u8], suffix: &[u8], loc: &mut Local) {
+    judge_junk_filtered(junk, msg, suffix, loc);
     loc.evals += 1;
     loc.transitions += 2;
     loc.traces += 1;
@@ -75,6 +76,39 @@ fn judge_junk(junk: &[u8], msg: &[u8], suffix: &[u8], loc: &mut Local) {
         }
         (other, _) => panic!("C06 harness: seed message does not parse alone: {:?}", other.map(|r| r.map(|x| x.0))),
     }
+}
+
+/// The same comparison under a filter: whatever `message ++ suffix` gives with the filter (the
+/// message or a filtered-out marker, and the remainder), `junk ++ message ++ suffix` must give too.
+fn judge_junk_filtered(junk: &[u8], msg: &[u8], suffix: &[u8], loc: &mut Local) {
+    if junk.is_empty() {
+        return;
+    }
+    let mut plain = msg.to_vec();
+    plain.extend_from_slice(suffix);
+    let mut dirty = junk.to_vec();
+    dirty.extend_from_slice(&plain);
+    for (fname, f) in crate::p04_consume::filter_configs().iter().skip(1) {
+        loc.transitions += 2;
+        let a = catch(|| dlt_message(&plain, f.as_ref(), true).map(|(rest, pm)| (rest.len(), pm)));
+        let b = catch(|| dlt_message(&dirty, f.as_ref(), true).map(|(rest, pm)| (rest.len(), pm)));
+        let same = match (&a, &b) {
+            (Ok(Ok((ra, ParsedMessage::Item(ma)))), Ok(Ok((rb, ParsedMessage::Item(mb))))) => ra == rb && same_message(ma, mb),
+            (Ok(Ok((ra, pa))), Ok(Ok((rb, pb)))) => ra == rb && pa == pb,
+            _ => false,
+        };
+        if !same {
+            loc.outcome("junk changes the filtered result");
+            let show = |r: &Result<Result<(usize, ParsedMessage), dlt_core::parse::DltParseError>, String>| match r {
+                Ok(Ok((n, pm))) => format!("remainder {} bytes, {}", n, format!("{:?}", pm).chars().take(60).collect::<String>()),
+                Ok(Err(e)) => format!("Err({:?})", e).chars().take(100).collect(),
+                Err(p) => format!("PANIC {}", p),
+            };
+            loc.violation("junk changes the result under a filter", format!("with [{}]: message {} ++ {}-byte suffix alone gives ({}), with junk {} in front ({})", fname, hex_short(msg), suffix.len(), show(&a), hex_short(junk), show(&b)), json!({"junk_hex": hex_short(junk), "message_hex": hex_short(msg), "suffix_hex": hex_short(suffix), "filter": fname}));
+            return;
+        }
+    }
+    loc.outcome("same result under every filter");
 }
 
 fn judge_stream(parts: &[(&[u8], &[u8])], tail: &[u8], loc: &mut Local) {
@@ -147,6 +181,40 @@ pub fn run(ctx: &Ctx) {
         let longs = &longs;
         ctx.run_family(Family::new("c06.search.long", n, "64-128 KiB buffers of 00/'D'/'L'/01 with the pattern at 0,1,3,4,65531..65536,end-5..end-3, absent, truncated at the end, and with a second later occurrence", move |i, loc| judge_search(&longs[i as usize], loc)).chunk(1));
     }
+    // search + parse: the pattern at EVERY offset 0..=N of a long buffer (block / chunk / window
+    // boundaries of any search implementation lie somewhere in this range)
+    {
+        let nmax = ctx.tier.pick(70_100usize, 263_000usize);
+        let msg = {
+            let mut m = seed_messages(Tier::Quick)[0].clone();
+            m.storage = Some(storage(0x0102_0304, 0x0005_0607, "ST"));
+            encode(&m).0
+        };
+        let fills: [&[u8]; 3] = [&[0x00], b"DLT", &[0x01, b'D', b'L', b'T', b'D']];
+        // one shared buffer per fill: junk = buffer[..k]
+        let bufs: Vec<Vec<u8>> = fills.iter().map(|f| f.iter().cycle().take(nmax + 8).cloned().collect()).collect();
+        let sp = Space::new(&[nmax + 1, fills.len()]);
+        let s2 = sp.clone();
+        let (bufs, msg) = (&bufs, &msg);
+        ctx.run_family(Family::new("c06.offset_sweep", sp.size(), format!("junk of EVERY length 0..={} (fills: zeros, 'DLT' repeated, 01 'DLTD' repeated -- no complete pattern) followed by a storage-header message and a second pattern: the search must report exactly the junk length, and parsing must return the message with the same remainder as without junk", nmax), move |i, loc| {
+            let c = s2.coords(i);
+            let k = c[0];
+            // junk must not complete a pattern together with the message start: fills never end in "DLT\x01"-completing context
+            let mut input = bufs[c[1]][..k].to_vec();
+            // 'DLT'-fill junk ending in "DLT" + message "DLT\x01..": first occurrence is still the message start
+            input.extend_from_slice(msg);
+            input.extend_from_slice(b"DLT\x01tail");
+            judge_search(&input, loc);
+            loc.transitions += 1;
+            match catch(|| dlt_message(&input, None, true).map(|(rest, pm)| (rest.len(), pm))) {
+                Ok(Ok((rest, ParsedMessage::Item(m)))) if rest == 8 && m.as_bytes() == *msg => loc.outcome("message behind junk recovered"),
+                other => {
+                    loc.outcome("lost behind junk");
+                    loc.violation("message behind junk is not recovered", format!("{} junk bytes (fill {}) in front of a storage-header message: result {:?}", k, hex(fills[c[1]]), other.map(|r| r.map(|(n, pm)| (n, format!("{:?}", pm).chars().take(80).collect::<String>())))), json!({"junk_len": k, "fill_hex": hex(fills[c[1]]), "message_hex": hex_short(msg)}));
+                }
+            }
+        }).chunk(16));
+    }
     // parse: junk x messages x suffixes
     {
         let junk_fam = strings_over(&SEARCH_ALPHA, ctx.tier.pick(5, 6), "junk");
@@ -160,6 +228,16 @@ pub fn run(ctx: &Ctx) {
         for extra in [vec![0u8; 15], vec![0u8; 16], vec![b'D'; 17], b"DLT".repeat(11), vec![0xFF; 70_000]] {
             junks.push(extra);
         }
+        // every junk length up to well beyond the shortest and the typical message lengths, plain
+        // and ending in each proper prefix of the pattern
+        for k in 6..=ctx.tier.pick(72usize, 320usize) {
+            junks.push(vec![b'X'; k]);
+            for tail in [&b"D"[..], b"DL", b"DLT"] {
+                let mut j = vec![0u8; k];
+                j.extend_from_slice(tail);
+                junks.push(j);
+            }
+        }
         let msgs: Vec<Vec<u8>> = seed_messages(ctx.tier)
             .into_iter()
             .step_by(ctx.tier.pick(2, 1))
@@ -168,11 +246,20 @@ pub fn run(ctx: &Ctx) {
                 encode(&m).0
             })
             .collect();
+        // messages that carry the storage pattern as content (family u.embedded_pattern)
+        let mut msgs = msgs;
+        for pos in 0..embedded_pattern_positions() {
+            for big in [false, true] {
+                if pos % 2 == 0 || big == (ctx.tier == Tier::Thorough) || ctx.tier == Tier::Thorough {
+                    msgs.push(encode(&embedded_pattern_message(pos, big, Some(storage(0x0102_0304, 0x0005_0607, "ST")), b"DLT\x01", "DLT\u{1}")).0);
+                }
+            }
+        }
         let suffixes: Vec<Vec<u8>> = vec![vec![], b"D".to_vec(), b"DLT\x01".to_vec(), msgs[0].clone()];
         let sp = Space::new(&[junks.len(), msgs.len(), suffixes.len()]);
         let s2 = sp.clone();
         let (junks, msgs, suffixes) = (&junks, &msgs, &suffixes);
-        ctx.run_family(Family::new("c06.parse.junk_message", sp.size(), format!("{} junk strings (all strings of length <= {} over {{D,L,T,01,00,X}} without the pattern, incl. every partial-pattern tail; 15/16/17-byte and 70000-byte junk) x {} storage-header messages x 4 suffixes", junks.len(), ctx.tier.pick(5, 6), msgs.len()), move |i, loc| {
+        ctx.run_family(Family::new("c06.parse.junk_message", sp.size(), format!("{} junk strings (all strings of length <= {} over {{D,L,T,01,00,X}} without the pattern, incl. every partial-pattern tail; 15/16/17-byte and 70000-byte junk; every length 6..={} plain and ending in D / DL / DLT) x {} storage-header messages (incl. messages carrying the pattern as content) x 4 suffixes, each also under 4 filter configurations", junks.len(), ctx.tier.pick(5, 6), ctx.tier.pick(72, 320), msgs.len()), move |i, loc| {
             let c = s2.coords(i);
             judge_junk(&junks[c[0]], &msgs[c[1]], &suffixes[c[2]], loc);
         }));
